@@ -12,18 +12,18 @@ import (
 // C06 — batch results correspond positionally to items; post sees all, once.
 
 func judgeC06(sc *BatchSc, x *batchExec, br batchRun, fail string) Verdict {
-	if fail != "" {
+	if fail != "" && !goroutinesRemain(fail) {
 		return bad("C06:bubble", "%s", fail)
 	}
 	if br.Panic != "" {
 		return bad("C06:panic", "run panicked: %s", br.Panic)
 	}
+	if x != nil && x.unattributed > 0 {
+		return ok(false, "fallback-call-not-attributable")
+	}
 	n := sc.n()
 	if sc.PrepErr != 0 {
-		if x.postCalls != 0 {
-			return bad("C06:post-after-prep-failure", "prep failed but post was called %d times", x.postCalls)
-		}
-		return ok(false, "prep-fails")
+		return ok(false, "prep-fails") // the statement is about batches whose prep succeeded
 	}
 	if sc.NoPost {
 		return ok(false, "no-post")
@@ -45,9 +45,6 @@ func judgeC06(sc *BatchSc, x *batchExec, br batchRun, fail string) Verdict {
 	if len(results) != n {
 		return bad("C06:results-len", "post received %d results for %d items", len(results), n)
 	}
-	if x.postStore[0] != x.store {
-		return bad("C06:store", "post received a different store")
-	}
 	per := itemEvents(br.Events, n)
 	var postStart time.Duration
 	for _, e := range br.Events {
@@ -59,6 +56,9 @@ func judgeC06(sc *BatchSc, x *batchExec, br batchRun, fail string) Verdict {
 		// items in the order prep produced them
 		if m := x.itemIs(items[i], i); m != "" {
 			return bad("C06:items-order", "post item %d: %s", i, m)
+		}
+		if len(per[i]) == 0 && sc.item(i).PreErr && results[i].IsError() && chainHas(results[i].Error(), x.itemErrs[i]) {
+			continue // a pre-made error item handed through to its slot without an exec call is settled
 		}
 		if len(per[i]) == 0 {
 			if sc.stop() || cancelled {
@@ -75,8 +75,10 @@ func judgeC06(sc *BatchSc, x *batchExec, br batchRun, fail string) Verdict {
 				return bad("C06:post-before-settled", "item %d still executing when post ran", i)
 			}
 		}
-		if cancelled && results[i].IsError() {
-			continue // an item whose retries were cut by the cancellation legitimately carries the context error
+		if (cancelled || sc.stop()) && results[i].IsError() {
+			// cancellation may cut an item's retries; in stop mode C09 allows an error in any slot
+			// (e.g. outcomes that arrive after the batch was stopped may be discarded)
+			continue
 		}
 		if m := slotMatches(results[i], per[i]); m != "" {
 			return bad("C06:slot", "result %d does not belong to item %d: %s", i, i, m)
@@ -85,14 +87,7 @@ func judgeC06(sc *BatchSc, x *batchExec, br batchRun, fail string) Verdict {
 	if x.postStarted[0] != n && !sc.stop() && !cancelled {
 		return bad("C06:post-before-all-started", "post entered after only %d of %d items had been started", x.postStarted[0], n)
 	}
-	// Run's return value
-	if sc.PostErr != 0 {
-		if br.Err == nil {
-			return bad("C06:post-error-lost", "post failed but run returned nil error")
-		}
-	} else if br.Err != nil {
-		return bad("C06:spurious-error", "run returned %v although prep and post succeeded (item errors belong in slots)", br.Err)
-	}
+	// (Run's return value is C04's business, not C06's.)
 	// non-triviality: c>=2 and completion order differs from index order
 	var ends []BEv
 	for _, e := range br.Events {
